@@ -635,6 +635,19 @@ void runObj(const json& ep)
             logObj(o, *obj);
             o.end();
         }
+        else if (name == "rawhdr")
+        {
+            // the raw CMP header and message header a packet renders (what the encoder puts on the wire)
+            const Packet pkt = makePacket(op.at("pkt"));
+            uint8_t ch[sizeof(CmpHeader)];
+            uint8_t mh[sizeof(MessageHeader)];
+            pkt.getRawCmpHeader(ch);
+            pkt.getRawMessageHeader(mh);
+            o.obj().kv("e", "obj.rawhdr");
+            o.key("pkt");
+            snapPacket(o, pkt);
+            o.bytes("cmp", ch, sizeof ch).bytes("msg", mh, sizeof mh).end();
+        }
         else if (name == "setData" && obj)
         {
             o.obj().kv("e", "obj.setData").kv("cls", cls).raw("args", op.dump());
